@@ -56,6 +56,36 @@ func init() {
 				rec["ons"] = noteOns(f)
 				return rec
 			}
+			// the whole listing in ONE piece, twice, after a rest: each chord must sound as when played alone
+			if len(ki.Diatonic.Triads) == 7 && len(ki.Diatonic.Sevenths) == 7 {
+				all := append(append([]string{}, ki.Diatonic.Triads...), ki.Diatonic.Sevenths...)
+				text := "R[1] "
+				for rep := 0; rep < 2; rep++ {
+					for _, t := range all {
+						text += t + "[1] "
+					}
+				}
+				seq := Rec{"kind": "seq", "sub": "seq", "key": chars(key), "ok": false, "runs": [][]int{}}
+				r1 := c.crd([]string{"text", "conv", "syllable", "--key", key}, []byte(text))
+				if r1.Exit == 0 && len(r1.Stdout) > 0 {
+					r2 := c.crd([]string{"write", "--key", key}, r1.Stdout)
+					f := smf.Parse(r2.Stdout)
+					if r2.Exit == 0 && f.Err == "" {
+						runs := [][]int{}
+						cur := []int{}
+						for _, e := range f.Events {
+							if e.Kind == smf.KindOn && e.B > 0 {
+								cur = append(cur, e.A)
+							} else if len(cur) > 0 && (e.Kind == smf.KindOff || (e.Kind == smf.KindOn && e.B == 0)) {
+								runs = append(runs, cur)
+								cur = []int{}
+							}
+						}
+						seq["ok"], seq["runs"] = true, runs
+					}
+				}
+				recs = append(recs, seq)
+			}
 			for i, t := range ki.Diatonic.Triads {
 				recs = append(recs, one("triad", 3, i+1, t))
 			}
